@@ -32,7 +32,7 @@ View == <<svars, hvars, stored, upd, IF GenMode /\ GenFail THEN Len(sched) ELSE 
 ViewEv == <<View, ev>>
 
 Users == Addr
-MsgOf(kind) == IF kind = "none" THEN <<>> ELSE <<[k |-> "msg", tag |-> kind, a |-> "", b |-> "", amt |-> 0]>>
+MsgOf(kind) == IF kind = "none" THEN <<>> ELSE <<[k |-> "msg", tag |-> kind, a |-> "", b |-> "", amt |-> 0, harmless |-> kind \in {"sink", "sink2", "bank"}]>>
 FailingKind(kind) == kind \in {"bankbig", "reexec", "reclose", "revote"}   \* dispatch of these always fails
 
 \* what the queries report for a stored proposal (Proposal::current_status)
